@@ -559,6 +559,47 @@ def string_paths_under_both_settings(col):
         gcore.PATH_STAR = old
 
 
+def registration_before_and_after_first_use(col):
+    """the outcome is a function of the registrations made, not of when the registry was first consulted: a handler registered on a new
+    Glommer for one of the default types before its first call, after a warm-up call, or after a failed call, gives the same results"""
+    import collections
+    from glom import Glommer
+    tag = lambda kind: (lambda o, k: (kind, k))
+    walk = lambda o: iter(['walked'])
+    targets = {list: lambda: {'v': [10, 20]}, dict: lambda: {'v': {'0': 'zero'}}, tuple: lambda: {'v': (10, 20)},
+               collections.OrderedDict: lambda: {'v': collections.OrderedDict([('0', 'z')])}, set: lambda: {'v': {10}}, frozenset: lambda: {'v': frozenset([10])}}
+    reads = [('get', Path('v', '0')), ('iterate', ('v', [T])), ('star', 'v.*'), ('plain', 'v')]
+    for ty, mk in targets.items():
+        outcomes = {}
+        for history in ('registered first', 'after a warm-up call', 'after a failed call', 'after a call on that very type'):
+            g = Glommer()
+            if history == 'after a warm-up call':
+                call(g.glom, {'a': 1}, 'a')
+            elif history == 'after a failed call':
+                call(g.glom, {'a': 1}, 'a.b.c')
+            elif history == 'after a call on that very type':
+                call(g.glom, mk(), ('v', [T]))
+            # (registering on the container of the target itself would change how 'v' is found)
+            g.register(ty, get=tag(ty.__name__), iterate=walk, exact=(ty is dict))
+            outcomes[history] = [outcome_signature(call(g.glom, mk() if ty is not dict else [mk()['v']], spec if ty is not dict else
+                                                        {'get': T[0]['0'] if False else Path(T[0], '0'), 'iterate': (T[0], [T]), 'star': Path(T[0], T.__star__()), 'plain': T[0]}[name]))
+                                 for name, spec in reads]
+            col.case(('registration-before-first-use', ty.__name__, history), True)
+            col.count('registrations')
+        base = outcomes['registered first']
+        for history, got in outcomes.items():
+            if got != base:
+                col.violation('C06/outcome-depends-on-when-the-registry-was-first-used', 'Glommer().register(%s, get=.., iterate=..) %s: the reads %s give %s ; '
+                              'registered before any call they give %s' % (ty.__name__, history, [n for n, _ in reads], short(repr(got), 400), short(repr(base), 400)), None)
+        # and the registered handlers are the ones in use
+        g = Glommer()
+        g.register(ty, get=tag(ty.__name__), iterate=walk, exact=(ty is dict))
+        got = call(g.glom, mk() if ty is not dict else [mk()['v']], Path('v', '0') if ty is not dict else Path(T[0], '0'))
+        if not (got.ok and got.value == (ty.__name__, '0')):
+            col.violation('C06/outcome-depends-on-when-the-registry-was-first-used', 'Glommer().register(%s, get=tagging handler) and then a path through a %s: %r, '
+                          'expected the registered handler\'s %r' % (ty.__name__, ty.__name__, got, (ty.__name__, '0')), None)
+
+
 def related_registration_history(col, rng):
     """registering a BASE of a type that was already looked up: the next call must behave as if the registration had
     been made first (compared with a cold registry that never saw the earlier calls)"""
@@ -722,6 +763,7 @@ def run(ctx):
         spec_glom_history(col, rng)
         spec_glom_star_toggles(col)
         string_paths_under_both_settings(col)
+        registration_before_and_after_first_use(col)
         related_registration_history(col, rng)
         exact_registration_after_lookups(col, rng)
         one_spec_object_on_different_targets(col)
